@@ -96,4 +96,18 @@ BENIGN = [
             return Err(HpkeError::InvalidPskBundle);
         }
         Ok(PskBundle { psk, psk_id })""")]),
+    dict(name='b-x25519-plain-eq', props=['C10'],
+         edits=[(X25519, "if res.as_bytes().ct_eq(&[0u8; 32]).into() {", "if res.as_bytes() == &[0u8; 32] {")]),
+    dict(name='b-x25519-was-contributory', props=['C10'],
+         edits=[(X25519, "if res.as_bytes().ct_eq(&[0u8; 32]).into() {", "if !res.was_contributory() {")]),
+    dict(name='b-x25519-early-return', props=['C10'],
+         edits=[(X25519, """        if res.as_bytes().ct_eq(&[0u8; 32]).into() {
+            Err(DhError)
+        } else {
+            Ok(KexResult(res))
+        }""", """        let is_zero: bool = res.as_bytes().ct_eq(&[0u8; 32]).into();
+        if is_zero {
+            return Err(DhError);
+        }
+        Ok(KexResult(res))""")]),
 ]
